@@ -20,6 +20,7 @@ their pre-call copies within 4 ulp on every exit path.
 Thorough tier additionally rebuilds the RadialSolver extensions with -fsanitize=address,undefined into a scratch
 shadow copy of the package under /dev/shm and re-runs a sub-lattice under LD_PRELOAD=libasan.
 """
+import collections
 import json
 import os
 import random
@@ -39,7 +40,7 @@ ASSUMPTIONS = [
     'stacks of 1-3 layers on one planet geometry (R=6000 km, 12 slices per layer, tight grid), one forcing frequency '
     '(1e-3 rad/s); the seed rotates a material factor and the visiting order only',
     'a hang is a single case that, run alone in a fresh process with max_num_steps=20000, exceeds the long wall-clock '
-    'limit (>=120 s; the same call returns in < 1 s when it returns at all)',
+    'limit (120 s) and has by then consumed >= 20 s of CPU (every returning call of the lattice needs < 1 s)',
     'memory safety is observed through process death under glibc MALLOC_CHECK_=3 / MALLOC_PERTURB_ (and ASan+UBSan in '
     'the thorough tier); silent corruption that neither leg detects is not decided',
     'PYTHONMALLOC=debug is not used: the solver allocates with CyRK allocate_mem (libc malloc) and releases with '
@@ -49,10 +50,12 @@ ASSUMPTIONS = [
     'finding), so nothing else can be observed on them; they are crossed with the no-fault menu entry only, plus the '
     'full fault menu on two representative stacks (thorough)',
     'the two inputs known to hang (radius_array[0] in {0, NaN}) are crossed with the base stacks only (each costs the '
-    'long limit)',
+    'long limit); the two arguments known to kill the interpreter on every stack (expected_size in {1, 2**40}) are '
+    'crossed with all stacks of <= 2 layers and the base stacks only',
 ]
 
-HANG_LIMIT = float(os.environ.get('C06_HANG_LIMIT', '120'))
+HANG_LIMIT = float(os.environ.get('C06_HANG_LIMIT', '120'))     # wall-clock limit of a single case run alone [s]
+HANG_CPU = float(os.environ.get('C06_HANG_CPU', '20'))          # ... which must also have consumed this much CPU [s]
 SEED_FACTORS = [1.0, 1.07, 0.93, 1.31, 0.77]
 
 # ----------------------------------------------------------------------------------------------------------------
@@ -64,7 +67,7 @@ ARG_FAULTS = [
     'len_tops_short', 'len_tops_long', 'len_arr0', 'len_arr1', 'len_arr2', 'len_arr3', 'len_arr4',
     'solve_list', 'solve_unknown', 'solve_six', 'solve_empty', 'solve_nonstr', 'solve_upper', 'solve_none', 'solve_five',
     'layer_unknown', 'integrator_unknown', 'method_rk23', 'method_dop853',
-    'few_slices', 'thin_layer', 'tops_decreasing', 'tops_beyond', 'tops_below', 'degree0', 'degree1', 'degree3',
+    'no_layers', 'empty_arrays', 'few_slices', 'thin_layer', 'tops_decreasing', 'tops_beyond', 'tops_below', 'degree0', 'degree1', 'degree3',
     # integration failures forced through an argument
     'steps1', 'steps3', 'ram0', 'ram1', 'expected0', 'expected1', 'expected_huge', 'rtol0', 'rtolneg', 'atolnan',
     'maxstep_tiny', 'maxstep_neg',
@@ -74,6 +77,7 @@ ARG_FAULTS = [
 ARR_FAULTS = ['arr:%d:%s:%s' % (a, p, v) for a in range(5) for p in ('first', 'iface', 'last')
               for v in ('nan', 'zero', 'inf', 'neg')]
 HANG_FAULTS = ('arr:0:first:zero', 'arr:0:first:nan')
+DIE_FAULTS = ('expected1', 'expected_huge')      # known to kill the interpreter on every stack (one child each)
 FAULTS = ARG_FAULTS + ARR_FAULTS
 SEQ_FAULTS = [f for f in ARG_FAULTS if is_argument_fault(f)]
 
@@ -131,6 +135,8 @@ def enumerate_cases(tier, seed):
         for flt in FAULTS:
             if flt in HANG_FAULTS and st not in hang_stacks:
                 continue
+            if flt in DIE_FAULTS and len(st) > 2 and st not in BASE_QUICK:
+                continue
             rofs = (False,) if (flt in HANG_FAULTS and st != [1, 1]) else TF
             B += [mk(st, flt, nd, rof) for nd in TF for rof in rofs]
     # C: two calls on the same arrays
@@ -151,11 +157,20 @@ def predicted_risky(case):
     flt = case.get('fault')
     if flt in HANG_FAULTS:
         return 'hang'
-    if flt in ('expected_huge', 'expected1'):
+    if flt in DIE_FAULTS:
         return 'die'
     if dyn_liquid_top(case['stack']):
         return 'die'
     return None
+
+
+def _cpu_seconds(pid):
+    try:
+        with open('/proc/%d/stat' % pid) as fh:
+            f = fh.read().rsplit(')', 1)[1].split()
+        return (int(f[11]) + int(f[12])) / float(os.sysconf('SC_CLK_TCK'))
+    except (OSError, IndexError, ValueError):
+        return float('inf')
 
 
 def _signame(n):
@@ -201,7 +216,7 @@ class Runner:
             shutil.rmtree(self.own_xdg, ignore_errors=True)
 
     # ---- one child
-    def _child(self, cases, timeout):
+    def _child(self, cases, timeout, cpu_floor=None):
         with self._lock:
             self._n += 1
             self.children += 1
@@ -212,13 +227,24 @@ class Runner:
         with open(tag + '.err', 'wb') as errfh:
             p = subprocess.Popen([sys.executable, '-m', 'mc.c06_child', tag + '.json', tag + '.log'], cwd=env.HOME,
                                  env=self.env, stdin=subprocess.DEVNULL, stdout=subprocess.DEVNULL, stderr=errfh)
+            rc, timed_out = None, False
             try:
                 rc = p.wait(timeout=timeout)
-                timed_out = False
             except subprocess.TimeoutExpired:
-                p.kill()
-                p.wait()
-                rc, timed_out = None, True
+                # Wall-clock limit reached.  On a heavily shared machine the child may simply not have been scheduled:
+                # a single-case confirmation run is only declared hung once it has also burnt HANG_CPU seconds of CPU
+                # (or 5x the wall limit has passed, for a child that sleeps forever).
+                hard = t0 + 5 * timeout
+                while cpu_floor is not None and _cpu_seconds(p.pid) < cpu_floor and time.time() < hard:
+                    try:
+                        rc = p.wait(timeout=5)
+                        break
+                    except subprocess.TimeoutExpired:
+                        pass
+                if rc is None:
+                    p.kill()
+                    p.wait()
+                    timed_out = True
         secs = time.time() - t0
         obs, begun, ready, done, herr = {}, -1, False, False, None
         try:
@@ -247,8 +273,8 @@ class Runner:
                 pass
         if herr:
             raise RuntimeError(herr)
-        if not ready and not timed_out:
-            raise RuntimeError('C06 child failed before it was ready (rc=%r): %s' % (rc, err[-1500:]))
+        if not ready:
+            raise RuntimeError('C06 child did not get ready (rc=%r, timed_out=%r): %s' % (rc, timed_out, err[-1500:]))
         seg = {}
         if self.markers and '@@C06 BEGIN ' in err:
             parts = err.split('@@C06 BEGIN ')
@@ -273,11 +299,13 @@ class Runner:
         if r['timed_out']:
             return dict(end='hang', obs=None, secs=round(r['secs'], 1), stderr=err)
         if r['rc'] < 0:
+            if _signame(-r['rc']) in ('SIGKILL', 'SIGTERM', 'SIGINT', 'SIGHUP'):
+                raise RuntimeError('child was killed from outside (%s): no verdict' % _signame(-r['rc']))
             return dict(end='signal', sig=_signame(-r['rc']), obs=None, stderr=err)
         return dict(end='exit', rc=r['rc'], obs=None, stderr=err)
 
     def run_alone(self, case, timeout=None):
-        r = self._child([case], timeout or HANG_LIMIT)
+        r = self._child([case], timeout or HANG_LIMIT, cpu_floor=HANG_CPU)
         if 0 in r['obs'] and not r['timed_out'] and r['rc'] == 0:
             return dict(end='ok', obs=r['obs'][0], alone=True, stderr=_interesting_stderr(r['stderr']))
         if 0 in r['obs']:
@@ -339,7 +367,6 @@ class Runner:
         die = [i for i in order if predicted_risky(cases[i]) == 'die']
         norm = [i for i in order if predicted_risky(cases[i]) is None]
         bsz = max(1, min(150, -(-len(norm) // (self.nworkers * 6))))
-        import collections
         hang_q = collections.deque([i] for i in hang)
         main_q = collections.deque([norm[j:j + bsz] for j in range(0, len(norm), bsz)] + [[i] for i in die])
         errors = []
@@ -583,18 +610,17 @@ def _feed(ctx, name, cases, results, rule, exhaustive=True):
 
 
 def _shrink_history(runner, cases):
-    """Smallest suffix of the history that still kills its child (a few attempts; falls back to the whole history)."""
+    """A shorter suffix of the history that still kills its child (at most 6 halvings; else the whole history)."""
     best = cases
-    n = len(cases)
-    k = n // 2
-    while k >= 1 and len(best) > 2:
-        cand = best[len(best) - max(2, len(best) // 2):]
+    for _ in range(6):
+        if len(best) <= 2:
+            break
+        cand = best[len(best) // 2:]
         res = runner._child(cand, timeout=90 + 2 * len(cand))
-        if (res['timed_out'] or res['rc'] != 0) and len(cand) < len(best):
+        if res['timed_out'] or res['rc'] != 0:
             best = cand
         else:
             break
-        k //= 2
     return best
 
 
@@ -652,7 +678,8 @@ RULES = {
                 'Takeuchi start only with nd=T,rof=F; dynamic-liquid-top stacks only (nd,rof,kam) in {(T,F,T),(F,T,F)}), '
                 'each in a child process',
     'B:faults': 'B: fault menu (%d argument faults + %d array-entry faults) x nd x rof x stacks (quick: 5 base stacks; '
-                'thorough: all 438 stacks without a dynamic-liquid top + 2 with); the 2 hang inputs on base stacks only'
+                'thorough: all 438 stacks without a dynamic-liquid top + 2 with); the 2 hang inputs on base stacks only, '
+                'expected_size in {1,2**40} on stacks of <= 2 layers + base stacks only'
                 % (len(ARG_FAULTS), len(ARR_FAULTS)),
     'C:sequences': 'C: two calls on the SAME arrays, (fault, good) and (good, fault), for every argument fault x nd (x rof '
                    'thorough) on base stacks; distinct = distinct observable outcome (process end, returned/raised type, '
